@@ -38,17 +38,24 @@ PROPS = {
            GEN + "at least one convert_local_fn_to_import, any order, interleaved with import additions",
            "Proof on the model (after a successful conversion the id every former use carries is mapped to the index of the new import, for every reachable state; shared theorems) + per-history evaluation: body removed, import present, every former use designates it; D02 (import order vs index order) is repaired: the import section is emitted in index order (C11_former_D02_witness_holds, C11_former_D02_mixed_witness_holds)."),
  "C05": dict(
-    parts=[dict(engine="reindex", harness_prop="C05", check_targets=["Check/CheckReidx.vo"], per_shard=300, share=0.5),
+    parts=[dict(engine="reindex", harness_prop="C05", check_targets=["Check/CheckReidx2.vo"], per_shard=300, share=0.5),
            dict(engine="lowering", harness_prop="C05low", check_targets=["Check/CheckLow.vo"], per_shard=400, share=0.5)],
-    check_targets=["Check/CheckReidx.vo", "Check/CheckLow.vo"], proof_targets=["Props/C05.vo"],
-    theorems=[("C05", "C05_second_resolution_is_identity"), ("C05", "C05_first_resolution_clears_every_special_list"), ("C05", "C05_second_resolution_is_identity_after_the_first"), ("C05", "C05_partial_identity_maps_leave_references")],
+    check_targets=["Check/CheckReidx2.vo", "Check/CheckLow.vo"], proof_targets=["Props/C05.vo"],
+    theorems=[("C05", "C05_second_resolution_is_identity"), ("C05", "C05_first_resolution_clears_every_special_list"), ("C05", "C05_second_resolution_is_identity_after_the_first"),
+              ("C05", "C05_settled_second_encode_same"), ("C05", "C05_unflagged_history_second_encode_same"), ("C05", "C05_parsed_module_second_encode_same"),
+              ("C05", "C05_checker_sound_index_side"), ("C05", "C05_known_D01_is_exact"), ("C05", "C05_partial_identity_maps_leave_references")],
     quick=dict(n=2400), thorough=dict(n=40000),
     rule="edit histories of the re-indexing engine and instrumentation plans of the lowering engine (all modes, function entry/exit, all API paths), each followed by two consecutive encode() calls "
          "whose bytes are compared; non-trivial = history or plan non-empty",
     level_text="Partial proof: the resolution pass of the first encode leaves no special-mode list behind, for every plan over all seven modes (also with special probes inside regions the same plan removes: "
-               "the former defect D31 is repaired by a fix: commit, C05_former_D31_witness_holds), and the second resolution pass is the identity on such a body (all bodies); identity id maps leave every reference unchanged. "
-               "Whether the bytes of two consecutive encodings are equal is observed on every sampled history / plan; known class D01 (id maps re-applied to already rewritten references and start/init expressions).",
+               "the former defect D31 is repaired by a fix: commit, C05_former_D31_witness_holds), and the second resolution pass is the identity on such a body (all bodies). Index side: the second encode is "
+               "now part of the model (Model/Reindex2.v: the item vectors reorganised in place and reorganised again, the flag never reset, references rewritten in place in bodies / probe lists / start / global "
+               "initialisers / data offsets and mapped again); Coq proof that whenever no vector is reorganised and every id map is the identity the second encoding IS the first (every state, every reference set), "
+               "that every state reached from any parsed module by any history that flags no index space is such a state (so the unmodified module and add_global / add_export / add_data histories encode twice to the "
+               "same module), and that the known class D01 is exactly 'the model predicts a difference': on agreeing cases the two real encodings were equal outside the class and different inside it. The model's "
+               "prediction for the second encode is part of the correspondence on every sampled history. Known class D01 (id maps re-applied to already rewritten references): the property is false of the code there.",
     level_note=NOTE, trusted_base=TB,
-    technique="Coq lemmas (idempotence of the resolution pass, identity maps) + byte comparison of two real encodings + known-class triage in Coq",
-    design_ref="5/C05", modelled="resolve_special_instrumentation, id maps", assumptions=[]),
+    technique="Coq proofs (idempotence of the resolution pass; model of the second encode: settled states encode twice to the same module, unflagged histories are settled, the known class is exact) + "
+              "in-Coq differential correspondence of the model's second-encode prediction with the byte comparison of two real encodings",
+    design_ref="5/C05", modelled="resolve_special_instrumentation, id maps, the in-place effects of encode_internal on the IR (Model/Reindex2.v)", assumptions=[]),
 }
